@@ -148,4 +148,96 @@ impl<E: Elem> World<E> {
             }
         }
     }
+
+    /// swap_rows / swap_cols with any pair of indices
+    pub fn swap_vecs(&mut self, out: &mut Out, r: usize, name: &str, a: usize, b: usize) {
+        let op = format!("{name} {r} {a} {b}");
+        out.announce(&op);
+        let before = snapshot();
+        let m = self.regs[r].as_mut().unwrap();
+        let res = catch(|| match name {
+            "swap_rows" => m.swap_rows(a, b).map(|_| ()),
+            _ => m.swap_cols(a, b).map(|_| ()),
+        });
+        let after = snapshot();
+        if (after.cloned, after.dropped, after.created) != (before.cloned, before.dropped, before.created) {
+            out.oracle_fail(&format!("{op}: elements were cloned/dropped/created"));
+        }
+        let (order, mut rf) = self.refs[r].take().unwrap();
+        let extent = if name == "swap_rows" { rf.nrows } else { rf.ncols };
+        let valid = a < extent && b < extent;
+        if valid {
+            if name == "swap_rows" {
+                rf.rows.swap(a, b);
+            } else {
+                for row in rf.rows.iter_mut() {
+                    row.swap(a, b);
+                }
+            }
+        }
+        self.refs[r] = Some((order, rf));
+        let m = self.regs[r].as_ref().unwrap();
+        let obs = match res {
+            None => "panic".to_string(),
+            Some(Ok(())) => format!("ok | {}", st_str(m)),
+            Some(Err(e)) => format!("err {} | {}", err_name(e), st_str(m)),
+        };
+        let want_ok = valid;
+        if obs.starts_with("ok") != want_ok || (!want_ok && !obs.starts_with("err IndexOutOfBounds")) {
+            out.oracle_fail(&format!("{op}: expected {}, implementation gave `{}`", if want_ok { "Ok" } else { "Err(IndexOutOfBounds)" }, obs));
+        }
+        out.count(if valid { if a == b { "swap:valid-equal" } else { "swap:valid-distinct" } } else { "swap:invalid" });
+        out.observe(&obs);
+        self.check_reg(out, r, &op);
+    }
+
+    /// swap(i, j) with plain ('p') or wrapping ('w') indices
+    pub fn swap_elems(&mut self, out: &mut Out, r: usize, i: (char, isize, isize), j: (char, isize, isize)) {
+        use matreex::WrappingIndex;
+        let op = format!("swap {r} {} {} {} {} {} {}", i.0, i.1, i.2, j.0, j.1, j.2);
+        out.announce(&op);
+        let before = snapshot();
+        let m = self.regs[r].as_mut().unwrap();
+        let res = catch(|| match (i.0, j.0) {
+            ('p', 'p') => m.swap((i.1 as usize, i.2 as usize), (j.1 as usize, j.2 as usize)).map(|_| ()),
+            ('p', _) => m.swap((i.1 as usize, i.2 as usize), WrappingIndex::new(j.1, j.2)).map(|_| ()),
+            (_, 'p') => m.swap(WrappingIndex::new(i.1, i.2), (j.1 as usize, j.2 as usize)).map(|_| ()),
+            _ => m.swap(WrappingIndex::new(i.1, i.2), WrappingIndex::new(j.1, j.2)).map(|_| ()),
+        });
+        let after = snapshot();
+        if (after.cloned, after.dropped, after.created) != (before.cloned, before.dropped, before.created) {
+            out.oracle_fail(&format!("{op}: elements were cloned/dropped/created"));
+        }
+        let (order, mut rf) = self.refs[r].take().unwrap();
+        let resolve = |k: (char, isize, isize), rf: &Ref| -> Option<(usize, usize)> {
+            if k.0 == 'p' {
+                let (a, b) = (k.1 as usize, k.2 as usize);
+                if a < rf.nrows && b < rf.ncols { Some((a, b)) } else { None }
+            } else if rf.nrows * rf.ncols == 0 {
+                None
+            } else {
+                Some(((k.1 as i128).rem_euclid(rf.nrows as i128) as usize, (k.2 as i128).rem_euclid(rf.ncols as i128) as usize))
+            }
+        };
+        let (pi, pj) = (resolve(i, &rf), resolve(j, &rf));
+        let valid = pi.is_some() && pj.is_some();
+        if let (Some(a), Some(b)) = (pi, pj) {
+            let t = rf.rows[a.0][a.1].clone();
+            rf.rows[a.0][a.1] = rf.rows[b.0][b.1].clone();
+            rf.rows[b.0][b.1] = t;
+        }
+        self.refs[r] = Some((order, rf));
+        let m = self.regs[r].as_ref().unwrap();
+        let obs = match res {
+            None => "panic".to_string(),
+            Some(Ok(())) => format!("ok | {}", st_str(m)),
+            Some(Err(e)) => format!("err {} | {}", err_name(e), st_str(m)),
+        };
+        if obs.starts_with("ok") != valid || (!valid && !obs.starts_with("err IndexOutOfBounds")) {
+            out.oracle_fail(&format!("{op}: expected {}, implementation gave `{}`", if valid { "Ok" } else { "Err(IndexOutOfBounds)" }, obs));
+        }
+        out.count(if valid { if pi == pj { "swap-elem:same-element" } else { "swap-elem:distinct" } } else { "swap-elem:invalid" });
+        out.observe(&obs);
+        self.check_reg(out, r, &op);
+    }
 }
